@@ -42,6 +42,7 @@ structure St where
   returned : Nat := 0                    -- highest version whose change() has returned
   results : List (Nat × Nat) := []       -- (returned-at-start, version used) of completed log calls
   startRet : Tid → Nat := fun _ => 0     -- `returned` when the thread's current log call began
+  published : List Nat := [0]            -- dict objects that have ever been `core.enabled`
 
 def upd {α : Type} (f : Nat → α) (k : Nat) (v : α) : Nat → α := fun u => if u = k then v else f u
 
@@ -64,8 +65,8 @@ def step (actFirst : Bool) (s : St) (t : Tid) (lab : Lab) : Option St :=
         dicts := upd s.dicts d { birth := s.act + 1, entry := ((s.dicts s.en).entry).map (fun _ => s.act + 1) },
         nextDict := d + 1 }
   | .c2 d, .pubAct => if actFirst then some { setPc s t (.c3 d) with act := s.act + 1 } else none
-  | .c2 d, .pubEn => if actFirst then none else some { setPc s t (.c3 d) with en := d }
-  | .c3 d, .pubEn => if actFirst then some { setPc s t .c4 with en := d } else none
+  | .c2 d, .pubEn => if actFirst then none else some { setPc s t (.c3 d) with en := d, published := d :: s.published }
+  | .c3 d, .pubEn => if actFirst then some { setPc s t .c4 with en := d, published := d :: s.published } else none
   | .c3 _, .pubAct => if actFirst then none else some { setPc s t .c4 with act := s.act + 1 }
   | .c4, .rel => some { setPc s t .idle with lock := none, returned := s.act }
   -- ---------------------------------------------------------------- _log (activation part)
